@@ -31,6 +31,8 @@ type parked struct {
 }
 
 type Client struct {
+	// AnswerTravel, when set, runs between taking the answer to workspace/configuration and handing it over.
+	AnswerTravel func()
 	mu        sync.Mutex
 	seq       int
 	Published []Pub
@@ -84,15 +86,20 @@ func (c *Client) ApplyEdit(context.Context, *protocol.ApplyWorkspaceEditParams) 
 }
 func (c *Client) Configuration(context.Context, *protocol.ConfigurationParams) ([]interface{}, error) {
 	c.mu.Lock()
-	defer c.mu.Unlock()
 	c.CfgCalls++
-	if c.cfgErr {
+	cfg, cfgErr, travel := c.cfg, c.cfgErr, c.AnswerTravel
+	c.mu.Unlock()
+	// the answer is what the configuration was when the request arrived; it may take its time to get back
+	if travel != nil {
+		travel()
+	}
+	if cfgErr {
 		return nil, errors.New("configuration unavailable")
 	}
-	if c.cfg == nil {
+	if cfg == nil {
 		return nil, nil
 	}
-	return []interface{}{c.cfg}, nil
+	return []interface{}{cfg}, nil
 }
 func (c *Client) WorkspaceFolders(context.Context) ([]protocol.WorkspaceFolder, error) {
 	return nil, nil
